@@ -430,30 +430,25 @@ func c11R6(r *Report) {
 				n++
 				r.Fn(f)
 				key := fmt.Sprintf("%s/write(%s)-under-%s", fname(f), g.msg[len("protocol."):], g.field)
-				ok := false
-				for _, gd := range guardsOf(w.Block()) {
-					gd = gd.norm()
+				g := g
+				ok := p.guardedIP(w, func(gd Guard) bool {
 					if !g.sub {
-						if f2, _ := loadedField(gd.Cond); f2 == fv && gd.Pol {
-							ok = true
-						}
-						continue
+						f2, _ := loadedField(gd.Cond)
+						return f2 == fv && gd.Pol
 					}
 					bo, isb := gd.Cond.(*ssa.BinOp)
 					if !isb {
-						continue
+						return false
 					}
 					if f2, _ := loadedField(bo.X); f2 != fv {
-						continue
+						return false
 					}
 					k, okk := constInt(bo.Y)
 					if !okk || k != 0 {
-						continue
+						return false
 					}
-					if (bo.Op == token.EQL && !gd.Pol) || (bo.Op == token.NEQ && gd.Pol) || (bo.Op == token.GTR && gd.Pol) {
-						ok = true
-					}
-				}
+					return (bo.Op == token.EQL && !gd.Pol) || (bo.Op == token.NEQ && gd.Pol) || (bo.Op == token.GTR && gd.Pol)
+				}, 0)
 				if !ok {
 					r.Fail("R6", key, w.Pos(), "%s is written on a path not dominated by peer.%s: the message is sent to a peer that did not negotiate it", g.msg, g.field)
 					continue
